@@ -47,9 +47,13 @@ def run(ctx):
     ctx.run_rule("R5-append-position", r5_append, F, False)
     ctx.run_rule("R7-commit", r7_commit, F)
     ctx.run_rule("R2-copy-loop", r2_copy_loop, F)
+    ctx.run_rule("R8-retry", r8_retry, F)
     A = ctx.facts("A", required=False)
     if A is not None:
         ctx.run_rule("R6-async-siblings", r6_async, A)
+        ctx.run_rule("R8-retry", r8_retry, A, True)
+        from rules import c17
+        ctx.run_rule("R2-mark-amount-async", c17.r2_async, A)     # the async file read advances the writer by what it read (shared with C17)
         ctx.run_rule("R3-truncate", r3_truncate, A, ("prepare_io_buf", "prepare_mut_io_buf"))
     else:
         ctx.notes.append("configuration A unavailable: async sibling rules skipped")
@@ -490,7 +494,35 @@ def r6_async(ctx, A):
     r5_append_async(ctx, A)
     r6_vectored(ctx, A)
     r6_effects(ctx, A)
+    r6_combined_check(ctx, A)
     ctx.floor("R6-async-siblings", 8)
+
+
+def r8_retry(ctx, F, only_async=False):
+    """The whole-buffer loops (read_exact_to, write_all_from, their async siblings) retry exactly on ErrorKind::Interrupted: the
+    `kind == Interrupted` edge stays in the loop, every other error leaves it."""
+    from rules import c10
+    n = 0
+    bodies = list(F.built.values()) if only_async else [b for k, b in sorted(F.fns.items()) if k.startswith("transport::") and "linux_session" not in k and "fuse_t_session" not in k]
+    for b in bodies:
+        if only_async and not (b.key.startswith("transport::")):
+            continue
+        if not [c for c in live_calls(b) if c.name == "kind"]:
+            continue
+        v = vf.VF(b, inline_depth=0, opaque_loops=True)
+        for h in sorted(v.loop_headers()):
+            for (cond, edges, u, g) in c10.loop_switches(b, v, h):
+                if not (cond.startswith("ErrorKind::eq(Error::kind(") or cond.startswith("Eq(Error::kind(")):
+                    continue
+                n += 1
+                owner = b if b.kind not in ("closure", "coroutine") or not b.owner else F.fns.get(b.owner, b)
+                c_ = v.operand(b.term(u)[1], u, len(b.stmts(u)))
+                what = " ".join(str(x[1]) for x in vf.walk(c_) if x[0] in ("KS", "KV", "K"))
+                ctx.check("R8-retry", "%s::%s" % ((owner.self_adt or "").rsplit("::", 1)[-1], owner.name), edges == {0: "exit", "otherwise": "loop"},      # (the compared constant is a promoted reference whose value the facts do not carry)
+                          "%s: the retry test on the error kind has edges %s against `%s`; only ErrorKind::Interrupted may be retried, every other error must end the loop"
+                          % (owner.name, edges, what[:60]), loc=owner.loc())
+    if not only_async:
+        ctx.check("R8-retry", "sites", n >= 3, "only %d retry loops found in the transport" % n)
 
 
 def r2_copy_loop(ctx, F):
@@ -548,6 +580,26 @@ def r6_effects(ctx, A):
         need = (1 if rd else 0) + (len(raw) if m.name != "async_write_from_at" else 0)
         ctx.check("R6-async-siblings", "FuseDevWriter::%s/accounts-written" % m.name, len(acc) >= need and (need == 0 or bool(acc)),
                   "FuseDevWriter::%s performs %d direct write(s)/read(s) into the buffer but accounts %d of them with account_written" % (m.name, need, len(acc)), loc=m.loc())
+
+
+def r6_combined_check(ctx, A):
+    """VirtioFsWriter::async_write2/3 write their parts one after the other; the all-or-nothing refusal therefore has to be made
+    up front on the sum: check_available_space(len(data), len(data2), len(data3) or 0) dominates every part's write."""
+    from rules.c20 import async_frame
+    for nm, want in (("async_write2", ["impl [T]::len(data)", "impl [T]::len(data2)", "0"]),
+                     ("async_write3", ["impl [T]::len(data)", "impl [T]::len(data2)", "impl [T]::len(data3)"])):
+        ms = [x for x in A.fns.values() if x.self_adt == VFW and x.name == nm and x.key in A.async_fns]
+        if len(ms) != 1:
+            raise core.Anchor("VirtioFsWriter::%s" % nm)
+        body, v = async_frame(A, ms[0])
+        chk = [c for c in live_calls(body) if c.name == "check_available_space"]
+        wr = [c for c in live_calls(body) if c.name == "write"]
+        ok = len(chk) == 1 and len(wr) == len([x for x in want if x != "0"])
+        if ok:
+            a = [vf.render(x, ms[0], short=True, vfx=v) for x in v.call_args(chk[0])][1:]
+            ok = a == want and all(body.dominates(chk[0].bb, c.bb) for c in wr)
+        ctx.check("R6-async-siblings", "VirtioFsWriter::%s/combined-check" % nm, ok,
+                  "VirtioFsWriter::%s must refuse on the combined length before writing any part (check_available_space(%s))" % (nm, ", ".join(want)), loc=ms[0].loc())
 
 
 def r6_vectored(ctx, A):
